@@ -39,7 +39,7 @@ func (p *job) rawAPIs(s int) {
 				continue
 			}
 			if acc, bad := p.checkAPI("VerifyDualProofV2", "rejects-honest", tr, v2resp(p.H, lo, hi), func() string { return "none" }); !acc || bad != "" {
-				viol(fmt.Sprintf("rejects-honest api=VerifyDocument-flow pair=(%d,%d) history=%v", lo, hi, p.cfg), "honest DualProofV2 rejected by the VerifyDocument flow: "+bad, p.cfg)
+				viol(fmt.Sprintf("rejects-honest api=VerifyDocument-flow pair=(%d,%d) history=%v", lo, hi, p.cfg), "honest DualProofV2 rejected by the VerifyDocument flow: "+bad, map[string]any{"hist": p.cfg, "s": 1})
 			}
 			hS, hT := map[string]*store.TxHeader{}, map[string]*store.TxHeader{}
 			don := map[string]*store.DualProof{}
